@@ -304,7 +304,14 @@ func run(c Case) ev.Verdict {
 			pipe.Reset(fresh)
 			srv = fresh
 
+			opens := pipe.Opens
+
 			if err = d.Open(); err != nil {
+				if pipe.Opens == opens {
+					// refused outright: nothing promises that a closed driver opens again
+					return ev.Verdict{OK: true, Infeasible: true, Classes: []string{"second-session-refused"}}
+				}
+
 				return ev.Fail("second Open of the same (1.0) driver: %v", err)
 			}
 
